@@ -124,7 +124,6 @@ def run(b, ps, tier, seed):
     violations += v3
     nperm = nann = 0
     nondet = 0
-    nf20, f20ex = 0, ""
     if impl:
         # determinism: the same texts once more
         again = S.run_tool(b.probe, "wf", cases[:400], timeout=600)
@@ -136,10 +135,6 @@ def run(b, ps, tier, seed):
                                           {"property": PROP, "kind": "nondeterministic", "suite": "wf", "input_text": t0,
                                            "input_hex": t0.encode("latin1", "replace").hex(), "first": impl.get(i0, "")[:400], "second": again.get(i0, "")[:400]}))
         nperm, nann, bad = metamorphic(b, items, impl, seed)
-        if TS.F20 in TS.known_ids(PROP):
-            f20 = [x for x in bad if x[0] == "explicit-annotation" and TS.f20_shaped(x[3], x[5])]
-            bad = [x for x in bad if x not in f20]
-            nf20, f20ex = len(f20), (G.render(f20[0][3]) if f20 else "")
         for what, i, k, e, e2, a, p in bad[:4]:
             t1, t2 = G.render(e), G.render(e2)
             violations.append(C.Violation(
@@ -147,9 +142,6 @@ def run(b, ps, tier, seed):
                 {"property": PROP, "kind": "metamorphic:" + what, "suite": "wf", "input_text": t1, "input_hex": t1.encode("latin1", "replace").hex(),
                  "variant_text": t2, "variant_hex": t2.encode("latin1", "replace").hex(), "original": a[:500], "variant": p[:500],
                  "replay_cmd": "bin/check C16 --replay <this file>"}))
-    if nf20 and isinstance(kn, dict):
-        kn = dict(kn)
-        kn[TS.F20] = (kn.get(TS.F20, (0, ""))[0] + nf20, f20ex)
     known, nknown, known_seen = TS.known_lines(PROP, kn, kn2)
     if impl and cnt.get("parse-err", 0) > 0:
         violations.append(C.Violation("generated type environments no longer parse (%d texts)" % cnt.get("parse-err", 0),
